@@ -105,6 +105,9 @@ type tccPeer struct {
 	faultK  int
 	rdone   chan struct{}
 
+	ackDelay time.Duration // > 0: every acknowledgement goes out this long after the one before
+	delayQ   chan tc.VerifMessage
+
 	clientInit *tc.VerifSessInit
 }
 
@@ -198,6 +201,20 @@ func (p *tccPeer) handshake(active bool, segMru uint64, keepalive uint16) error 
 
 // reader loop: records segments (acknowledging them honestly when autoAck is set) and acks
 func (p *tccPeer) run() {
+	if p.ackDelay > 0 {
+		p.delayQ = make(chan tc.VerifMessage, 1<<16)
+		go func() {
+			for {
+				select {
+				case a := <-p.delayQ:
+					time.Sleep(p.ackDelay)
+					p.send(a)
+				case <-p.rdone:
+					return
+				}
+			}
+		}()
+	}
 	go func() {
 		defer close(p.rdone)
 		defer func() {
@@ -232,7 +249,9 @@ func (p *tccPeer) run() {
 					}
 					continue
 				}
-				if auto {
+				if auto && p.ackDelay > 0 {
+					p.delayQ <- tc.VerifNewXferAck(m.Flags, m.TransferId, total)
+				} else if auto {
 					p.send(tc.VerifNewXferAck(m.Flags, m.TransferId, total))
 				}
 			case *tc.VerifXferAck:
@@ -549,6 +568,8 @@ type tccSendJob struct {
 	conc       int
 	fault      string
 	faultK     int
+	ackDelay   time.Duration
+	label      string // suffix of the case label
 	line       []S
 }
 
@@ -559,6 +580,7 @@ func tccSendRun(j *tccSendJob) {
 	peer := newTccPeer(pc)
 	peer.autoAck = true
 	peer.fault, peer.faultK = j.fault, j.faultK
+	peer.ackDelay = j.ackDelay
 	hsErr := peer.handshake(j.peerActive, j.m, j.keepalive)
 	startRes := "hang"
 	select {
@@ -608,7 +630,7 @@ func tccSendRun(j *tccSendJob) {
 	if j.peerActive {
 		role = "client-passive"
 	}
-	j.line = []S{Sym("client-" + j.transport), Sym(role), U(j.m), U(ownMru), U(0), I(j.conc), tccSentS(j.encs, res), tids, groups,
+	j.line = []S{Sym("client-" + j.transport + j.label), Sym(role), U(j.m), U(ownMru), U(0), I(j.conc), tccSentS(j.encs, res), tids, groups,
 		Sym(closed), I(other), Sym(j.fault), I(j.faultK)}
 }
 
@@ -920,6 +942,12 @@ func genC11client(o *Out, r *Rng, thorough bool) {
 		t0 = time.Now()
 	}
 
+	if os.Getenv("VERIF_TCC_ONLY_LASTING") != "" {
+		// development aid: only the sessions that last (thorough set), nothing else
+		tccBusyAll(o, r, true)
+		return
+	}
+
 	// (1) csend: peer announces Segment MRU m; the Client sends bundles of encoded length L
 	var sjobs []*tccSendJob
 	addSend := func(m uint64, payloads []int, conc int) {
@@ -1160,6 +1188,10 @@ func genC11client(o *Out, r *Rng, thorough bool) {
 		o.Case("cpair", j.line...)
 	}
 	lap("cpair")
+
+	// (5) sessions that last: steady traffic beyond the keepalive interval, a transfer beyond Send's timeout
+	tccBusyAll(o, r, thorough)
+	lap("cbusy")
 }
 
 func init() { register("C11client", genC11client) }
